@@ -2,6 +2,7 @@ package rules
 
 import (
 	"go/token"
+	"go/types"
 	"strings"
 
 	"f2gcheck/internal/ir"
@@ -325,6 +326,59 @@ func c05(c *Ctx) {
 	}
 	if ncount == 0 {
 		c.R.Undecided("R-count", "no-store", "controller", "-", "no store to the third-party counter found (anchor unresolved)")
+	}
+	// the count is never lost: a store of the whole statistics struct must carry the current count over
+	for _, fn := range c.P.Funcs {
+		if !c.P.IsRepoFunc(fn) {
+			continue
+		}
+		Instrs(fn, func(ins ssa.Instruction) {
+			st, ok := ins.(*ssa.Store)
+			if !ok {
+				return
+			}
+			stt, ok := st.Val.Type().Underlying().(*types.Struct)
+			if !ok {
+				return
+			}
+			ci := -1
+			for i := 0; i < stt.NumFields(); i++ {
+				if stt.Field(i).Name() == "UnexpectedPwmValueCount" {
+					ci = i
+				}
+			}
+			if ci < 0 {
+				return
+			}
+			if _, isField := st.Addr.(*ssa.FieldAddr); !isField {
+				return // a local copy being built, not the controller's state
+			}
+			key := c.FK(fn) + "|whole-struct"
+			// the value: a load of a local struct; that local must have received the old count
+			kept := false
+			if u, ok := st.Val.(*ssa.UnOp); ok && u.Op == token.MUL {
+				if al, ok := u.X.(*ssa.Alloc); ok && al.Referrers() != nil {
+					for _, r := range *al.Referrers() {
+						fa, ok := r.(*ssa.FieldAddr)
+						if !ok || fa.Field != ci || fa.Referrers() == nil {
+							continue
+						}
+						for _, r2 := range *fa.Referrers() {
+							if s2, ok := r2.(*ssa.Store); ok {
+								if t := tb.Of(s2.Val, nil); strings.Contains(t.String(), "field:UnexpectedPwmValueCount") && !strings.Contains(t.String(), "bin:") {
+									kept = true
+								}
+							}
+						}
+					}
+				}
+			}
+			if kept {
+				c.R.Ok("R-count", key, c.FK(fn), c.P.Pos(st.Pos()), "the statistics are replaced as a whole and the third-party count is carried over")
+			} else {
+				c.R.Bad("R-count", key, c.FK(fn), c.P.Pos(st.Pos()), "the statistics struct is overwritten as a whole without carrying the third-party count over: changes already counted are lost (the counter drops to zero)")
+			}
+		})
 	}
 	// the check must be executed in every cycle: UpdateFanSpeed's call tree reaches the counter store
 	for _, ufs := range c.ImplMethods(PkgCtrl, "FanController", "UpdateFanSpeed") {
